@@ -177,6 +177,8 @@ type Run struct {
 	initDepth          int
 	wantInit           *ssa.Function
 	chanCount          int
+	tmpCount           int
+	ownParams          bool
 	switches           int
 
 	outcome         string // "" running, ok, violation, infeasible, inconclusive
@@ -380,7 +382,14 @@ func (r *Run) abort(format string, args ...any) {
 		defer func() { recover() }()
 		site = r.siteOf(r.cur)
 	}()
-	panic(abortRun{fmt.Sprintf(format, args...) + " @ " + site})
+	trace := ""
+	func() {
+		defer func() { recover() }()
+		if r.cur != nil {
+			trace = " [" + strings.Join(r.cur.stackTrace(8), " <- ") + "]"
+		}
+	}()
+	panic(abortRun{fmt.Sprintf(format, args...) + " @ " + site + trace})
 }
 
 // ---- decisions ------------------------------------------------------------
